@@ -1,9 +1,25 @@
 """C16 - a failing FFI co-process is contained by the VM (DESIGN 5/C16)."""
 META = {
     "level": "proof",
-    "trusted_base": ["contracts/spec_cop.h", "contracts/cop_contracts.h (incl. the OS stubs read/write and the heap-layer contracts)"],
-    "assumptions": [],
-    "undecided_part": "",
+    "trusted_base": [
+        "contracts/spec_cop.h, contracts/cop_contracts.h",
+        "OS stub bodies read/write/__errno_location (harness/cop_h.c) and waitpid/close/kill/usleep (harness/cop_call_h.c): assumed contracts on the OS",
+        "heap-layer contracts vm_string_new / vm_array_new / vm_array_push (assumed; not enforced by this unit)",
+        "contracts/libc_stubs.h (snprintf: destination valid for n bytes, content unconstrained)",
+    ],
+    "assumptions": [
+        "the peer is nondeterminism in the OS stubs: read returns -1 (any errno), 0, or 1..count with an arbitrary byte at an arbitrary index below the count (ghost-index form of havoc; __CPROVER_havoc_slice with a symbolic 64-bit size does not get through the SAT back end); write returns -1, 0 or a short count; waitpid returns -1, 0 (WNOHANG only) or pid",
+        "TERMINATION of the read_all / write_all retry loops is NOT a property of the code alone: an OS answering EINTR (or, for write, 0) forever keeps them spinning.  The variant is the pair (bytes left, no-progress answers left in __verif_cop.eintr_budget), the budget being an arbitrary 32-bit ghost: termination is claimed only for finitely many no-progress answers; memory safety and the frame (only buf[0..len) written) are checked per iteration for every answer including EINTR",
+        "write_all has no `n == 0` guard (read_all has): a write() that keeps returning 0 for count > 0 would spin; not possible on Linux pipes, covered by the budget assumption above",
+        "C16.deser.safe.*: arbitrary bytes in a buffer object of exactly buf_size bytes (any buf_size up to 2^32-1); X over the tag class of the first byte {every tag but string/array, string, array}; recursive calls (array elements) get the SAME contract for any tag as induction hypothesis (--enforce-contract-rec); the array loop has a loop contract (sidecar) with variant count-i",
+        "allocation succeeds (framework-wide); C16.deser.alloc.array restricts that assumption to requests of at most COP_MAX_PAYLOAD elements and is EXPECTED to be refuted: the element count comes from the peer and goes unchecked into calloc(count,16)",
+        "stack exhaustion is invisible to CBMC; C16.deser.depth.array bounds a ghost frame counter (two inserted ghost assignments) by COP_MAX_DEPTH=1024 and is EXPECTED to be refuted: recursion depth is bounded only by payload_len/6",
+        "C16.deser.safe.string is EXPECTED to be refuted: `pos + len > buf_size` wraps in uint32 for len >= 2^32-5, vm_string_new is then handed a range outside the buffer",
+        "C16.call / C16.stop: protocol functions replaced by caller-view contracts (conjunction of what C15.ser.*, C16.deser.safe.*, C16.recv.*, C16.send.* enforce, r_ok/w_ok instead of fresh objects: that step is not machine-checked); hence C16.call is conditional on C16.deser.safe.string being repaired.  vm_ffi_cop_start and vm_ffi_call are replaced by stated contracts (fork/exec/dlopen are not modelled).  String arguments are NULL in C16.call.  error_msg_size in 1..4096 (the VM passes 256); the three co-process fields satisfy fd >= -1",
+        "C16.call proves: memory safety and frame of vm_ffi_call_cop for every peer behaviour; success => transferable result tag; failed request send or failed/rejected response header => waitpid on the co-process pid was reached and cop_pid = cop_in_fd = cop_out_fd = -1; kill() only ever targets a positive pid.  NOT claimed: content / NUL-termination of error_msg (snprintf is a stub); recv_buf freed on every path (read, not proved); after a failed PAYLOAD receive or an FFI_ERROR longer than error_msg the co-process is kept although the stream is out of step (the next call fails on the header and relaunches)",
+        "CBMC 6.11 tool note: a dereference of out->as.array in a contract clause after `*out = val_array(arr)` is resolved against a stale value set (spurious FAILURE); the clause reads the same 8 bytes through the union's first pointer member instead (COP_OUT_ARRAY)",
+    ],
+    "undecided_part": "the real process table (zombies, orphan co-process after the VM exits), the real kernel, timing (50 ms grace period); SIGPIPE disposition of nano_vm (C16.sigpipe is not built in this unit); cop_main.c (the co-process side) is not under contract; run_standalone calling vm_ffi_cop_stop at exit is not checked",
 }
 
 HARNESS = "harness/cop_h.c"
@@ -32,5 +48,52 @@ def obligations(repo):
                     strength="X", functions=["cop_deserialize_value"], timeout=900,
                     must_have=[r"cop_deserialize_value\.postcondition", r"loop_invariant_step", r"decreases", r"COVER",
                                r"cop_deserialize_value\.precondition"],
-                    min_checks=30, witness={"replayer": "cop", "override": {"loops": False, "annotate": [], "unwind": 6}}))
+                    min_checks=30, witness={"replayer": "cop", "override": {"loops": False, "annotate": [], "unwind": 6, "unwindset": [DECLOOP + ":3"], "object_bits": 10}}))
+    # the same, with the allocation assumption restricted to requests proportional to the message size:
+    # the element count is taken from the peer (u32) and passed unchecked to vm_array_new -> calloc(count, 16)
+    obs.append(dict(id="C16.deser.alloc.array", prop="C16", harness=HARNESS, entry="h_safe", annotate=COPANN,
+                    defines={"COP_VIEW_SAFE": 1, "COP_SAFE_CLASS": 2, "COP_ALLOC_BOUND": 1},
+                    gi_flags=rec("cop_deserialize_value"), replace=HEAPREPL, loops=True, unwind="auto",
+                    strength="X", functions=["cop_deserialize_value"], timeout=900,
+                    must_have=[r"vm_array_new\.precondition", r"loop_invariant_step", r"COVER"],
+                    min_checks=30, witness={"replayer": "cop", "override": {"loops": False, "annotate": [], "unwind": 6,
+                                            "unwindset": [DECLOOP + ":3"], "object_bits": 10}}))
+    # recursion depth: ghost frame counter (inserted ghost statements), bounded by the contract
+    obs.append(dict(id="C16.deser.depth.array", prop="C16", harness=HARNESS, entry="h_safe",
+                    annotate=[("src/nanovm/cop_protocol.c", "contracts/loops/cop_protocol.c.depth.loops")],
+                    defines={"COP_VIEW_SAFE": 1, "COP_SAFE_CLASS": 2, "COP_DEPTH_GHOST": 1},
+                    gi_flags=rec("cop_deserialize_value"), replace=HEAPREPL, loops=True, unwind="auto",
+                    strength="X", functions=["cop_deserialize_value"], timeout=900,
+                    must_have=[r"cop_deserialize_value\.precondition", r"loop_invariant_step", r"COVER"],
+                    min_checks=30, witness={"replayer": "cop", "override": {"loops": False, "unwind": 6,
+                                            "unwindset": [DECLOOP + ":3"], "object_bits": 10}}))
+    # pipe I/O under an adversarial OS (read/write stub bodies in the harness)
+    io = {"COP_VIEW_IO": 1}
+    obs.append(dict(id="C16.recv.read_all", prop="C16", harness=HARNESS, entry="h_read_all", annotate=COPANN, defines=io,
+                    enforce="read_all", loops=True, unwind="auto", strength="U", functions=["read_all"],
+                    must_have=[r"read_all\.postcondition", r"loop_invariant_step", r"decreases", r"OS: read destination", r"COVER"],
+                    min_checks=30))
+    obs.append(dict(id="C16.send.write_all", prop="C16", harness=HARNESS, entry="h_write_all", annotate=COPANN, defines=io,
+                    enforce="write_all", loops=True, unwind="auto", strength="U", functions=["write_all"],
+                    must_have=[r"write_all\.postcondition", r"loop_invariant_step", r"decreases", r"OS: write source", r"COVER"],
+                    min_checks=30))
+    obs.append(dict(id="C16.recv.header", prop="C16", harness=HARNESS, entry="h_recv_header", defines=io,
+                    enforce="cop_recv_header", replace=["read_all"], unwind=6, strength="U", functions=["cop_recv_header"],
+                    must_have=[r"cop_recv_header\.postcondition", r"read_all\.precondition", r"COVER"], min_checks=20))
+    obs.append(dict(id="C16.recv.payload", prop="C16", harness=HARNESS, entry="h_recv_payload", defines=io,
+                    enforce="cop_recv_payload", replace=["read_all"], unwind=6, strength="U", functions=["cop_recv_payload"],
+                    must_have=[r"cop_recv_payload\.postcondition", r"read_all\.precondition", r"COVER"], min_checks=20))
+    obs.append(dict(id="C16.send.cop_send", prop="C16", harness=HARNESS, entry="h_send", defines=io,
+                    enforce="cop_send", replace=["write_all"], unwind=6, strength="U", functions=["cop_send", "cop_send_simple"],
+                    must_have=[r"cop_send\.postcondition", r"write_all\.precondition", r"COVER"], min_checks=20))
+    # caller side: vm_ffi_call_cop / vm_ffi_cop_stop with the protocol functions replaced by their caller-view contracts
+    CALLH = "harness/cop_call_h.c"
+    CREPL = ["cop_serialize_value", "cop_deserialize_value", "cop_send", "cop_recv_header", "cop_recv_payload", "vm_ffi_call", "vm_ffi_cop_start"]
+    obs.append(dict(id="C16.call", prop="C16", harness=CALLH, entry="h_call", enforce="vm_ffi_call_cop", replace=CREPL, sources=["src/nanovm/cop_protocol.c"],
+                    unwind=18, strength="U", functions=["vm_ffi_call_cop", "vm_ffi_cop_stop", "cop_ensure", "cop_is_alive"], timeout=900,
+                    must_have=[r"vm_ffi_call_cop\.postcondition", r"cop_deserialize_value\.precondition", r"cop_recv_payload\.precondition",
+                               r"OS: waitpid", r"COVER"], min_checks=100, weight=20))
+    obs.append(dict(id="C16.stop", prop="C16", harness=CALLH, entry="h_stop", enforce="vm_ffi_cop_stop", replace=["cop_send"], sources=["src/nanovm/cop_protocol.c"],
+                    unwind=8, strength="U", functions=["vm_ffi_cop_stop", "cop_send_simple"],
+                    must_have=[r"vm_ffi_cop_stop\.postcondition", r"OS: waitpid", r"COVER"], min_checks=30))
     return obs
